@@ -12,9 +12,12 @@
 #include <QRegularExpression>
 #include <QTcpSocket>
 
-// {"u":user,"d":domain,"r":resource}; an absent/empty attribute is three empty strings.
-// Resources assigned by the server with a random suffix (Bind 2: "<tag>.<8 random chars>")
-// are normalised to "<tag>.#".
+// {"u":user,"d":domain,"r":resource, "rr":raw resource, "at":bool, "sl":bool}; an absent/empty
+// attribute is three empty strings. u/d/r are what the model talks about: resources assigned by the
+// server with a random suffix (Bind 2: "<tag>.<8 random chars>") are normalised to "<tag>.#" in r.
+// (u, at, d, sl, rr) is a lossless decomposition of the string (string = u [@] d [/] rr with "at"/"sl"
+// saying whether the separator is present), so that the monitor can compare an address exactly:
+// "a@b/" differs from "a@b" in sl, "b" from "@b" in at, and case is kept as received.
 inline QJsonObject qxvJid(const QString &jid)
 {
     QString bare = jid, r;
@@ -23,6 +26,7 @@ inline QJsonObject qxvJid(const QString &jid)
         bare = jid.left(slash);
         r = jid.mid(slash + 1);
     }
+    const QString rr = r;
     QString u, d = bare;
     int at = bare.indexOf('@');
     if (at >= 0) {
@@ -34,7 +38,7 @@ inline QJsonObject qxvJid(const QString &jid)
     if (m.hasMatch()) {
         r = m.captured(1) + QStringLiteral(".#");
     }
-    return QJsonObject { { "u", u }, { "d", d }, { "r", r } };
+    return QJsonObject { { "u", u }, { "d", d }, { "r", r }, { "rr", rr }, { "at", at >= 0 }, { "sl", slash >= 0 } };
 }
 
 class RawClient : public QObject
